@@ -21,47 +21,92 @@ SHIM_C = r'''
 #define _GNU_SOURCE
 #define _LARGEFILE64_SOURCE
 #include <time.h>
+#include <stdlib.h>
+#include <unistd.h>
 #include <dlfcn.h>
 #include <fcntl.h>
 #include <stdarg.h>
 #include <string.h>
 #include <sys/types.h>
 /* frozen clock, and a constant instead of /dev/urandom (the hash seed of a new content file) */
-time_t time(time_t* t) { time_t v = %dL; if (t) *t = v; return v; }
+static long shim_ticks;
+time_t time(time_t* t) { time_t v = %dL; if (getenv("C13_TICK")) v += ++shim_ticks; if (t) *t = v; return v; }
 #include <stdlib.h>
 #include <unistd.h>
 /* optional slow disk: reads of files whose path contains $C13_SLOW_DIR are delayed by $C13_SLOW_US microseconds,
-   so that the reader of that disk finishes last (arrival order of io_data_read differs from the disk order) */
-static unsigned char shim_slow_fd[4096];
+   so that the reader of that disk finishes last (arrival order of io_data_read differs from the disk order).
+   optional faults: $C13_ENOENT_PATH (open fails with ENOENT), $C13_EIO_PATH [+ $C13_EIO_OFF] (pread fails with EIO),
+   $C13_WEIO_PATH + $C13_WEIO_OFF (pwrite at that offset fails with EIO) */
+#include <errno.h>
+static unsigned char shim_fd[4096];
+static int shim_has(const char* var, const char* path)
+{
+	const char* v = getenv(var);
+	return v != 0 && *v != 0 && strstr(path, v) != 0;
+}
 static int shim_open(const char* name, const char* path, int flags, mode_t mode)
 {
 	int (*real)(const char*, int, ...) = (int (*)(const char*, int, ...))dlsym(RTLD_NEXT, name);
-	const char* slow = getenv("C13_SLOW_DIR");
 	int fd;
 	if (strcmp(path, "/dev/urandom") == 0)
 		path = "/dev/zero";
+	if (shim_has("C13_ENOENT_PATH", path)) {
+		errno = ENOENT;
+		return -1;
+	}
 	fd = real(path, flags, mode);
 	if (fd >= 0 && fd < 4096)
-		shim_slow_fd[fd] = slow != 0 && strstr(path, slow) != 0;
+		shim_fd[fd] = (shim_has("C13_SLOW_DIR", path) ? 1 : 0) | (shim_has("C13_EIO_PATH", path) ? 2 : 0) | (shim_has("C13_WEIO_PATH", path) ? 4 : 0);
 	return fd;
 }
-static void shim_delay(int fd)
+static int shim_read_fault(int fd, long long offset)
 {
-	if (fd >= 0 && fd < 4096 && shim_slow_fd[fd]) {
+	if (fd >= 0 && fd < 4096 && (shim_fd[fd] & 1)) {
 		const char* us = getenv("C13_SLOW_US");
 		usleep(us ? atoi(us) : 300);
 	}
+	if (fd >= 0 && fd < 4096 && (shim_fd[fd] & 2)) {
+		const char* off = getenv("C13_EIO_OFF");
+		if (!off || !*off || atoll(off) == offset) {
+			errno = EIO;
+			return 1;
+		}
+	}
+	return 0;
+}
+static int shim_write_fault(int fd, long long offset)
+{
+	if (fd >= 0 && fd < 4096 && (shim_fd[fd] & 4)) {
+		const char* off = getenv("C13_WEIO_OFF");
+		if (off && *off && atoll(off) == offset) {
+			errno = EIO;
+			return 1;
+		}
+	}
+	return 0;
 }
 ssize_t pread(int fd, void* buf, size_t count, off_t offset)
 {
 	ssize_t (*real)(int, void*, size_t, off_t) = (ssize_t (*)(int, void*, size_t, off_t))dlsym(RTLD_NEXT, "pread");
-	shim_delay(fd);
+	if (shim_read_fault(fd, offset)) return -1;
 	return real(fd, buf, count, offset);
 }
 ssize_t pread64(int fd, void* buf, size_t count, off64_t offset)
 {
 	ssize_t (*real)(int, void*, size_t, off64_t) = (ssize_t (*)(int, void*, size_t, off64_t))dlsym(RTLD_NEXT, "pread64");
-	shim_delay(fd);
+	if (shim_read_fault(fd, offset)) return -1;
+	return real(fd, buf, count, offset);
+}
+ssize_t pwrite(int fd, const void* buf, size_t count, off_t offset)
+{
+	ssize_t (*real)(int, const void*, size_t, off_t) = (ssize_t (*)(int, const void*, size_t, off_t))dlsym(RTLD_NEXT, "pwrite");
+	if (shim_write_fault(fd, offset)) return -1;
+	return real(fd, buf, count, offset);
+}
+ssize_t pwrite64(int fd, const void* buf, size_t count, off64_t offset)
+{
+	ssize_t (*real)(int, const void*, size_t, off64_t) = (ssize_t (*)(int, const void*, size_t, off64_t))dlsym(RTLD_NEXT, "pwrite64");
+	if (shim_write_fault(fd, offset)) return -1;
 	return real(fd, buf, count, offset);
 }
 int open(const char* path, int flags, ...)
@@ -168,6 +213,11 @@ class Array:
                 f.write(bytes([b[0] ^ 0x40]))
             os.utime(p, ns=(st.st_atime_ns, st.st_mtime_ns))
             info['corrupted'] = name
+        # one file deleted on the second disk (its blocks are deallocated by the sync while the readers run)
+        cand = [x for x in byd['d1'] if x[1] >= 1024 and x[0] not in info['rewritten']]
+        if cand:
+            os.remove(os.path.join(self.work, cand[-1][0]))
+            info['deleted'] = cand[-1][0]
         # one new file on the last disk
         p = os.path.join(self.work, 'd%d' % (self.nd - 1), 'new')
         with open(p, 'wb') as f:
@@ -200,7 +250,7 @@ def run_tool(tool, arr, cache, cmd, env_extra=None, timeout=60, sigint_after=Non
     logp = os.path.join(arr.base, 'log')
     if os.path.exists(logp):
         os.remove(logp)
-    argv = [tool] + FAST + list(opts) + ['--test-io-cache', str(cache), '-c', arr.conf()] + (['-l', logp] if log else []) + cmd
+    argv = [tool] + FAST + list(opts) + (['--test-io-cache', str(cache)] if cache is not None else []) + ['-c', arr.conf()] + (['-l', logp] if log else []) + cmd
     p = subprocess.Popen(argv, stdout=subprocess.PIPE, stderr=subprocess.STDOUT, text=True, errors='replace', env=env)
     try:
         if sigint_after is not None:
@@ -341,7 +391,7 @@ def trace_runs(chk, tool, model, arrays, caches, seeds, with_sigint):
             for seed in seeds:
                 arr.fresh()
                 steps = [('sync', ['sync']), ('mutate', None), ('sync2', ['sync']), ('scrub_full', ['scrub', '-p', 'full']),
-                         ('scrub_part', ['scrub', '-p', '40', '-o', '0'])]
+                         ('scrub_part', ['scrub', '-p', '40', '-o', '0']), ('scrub_bad', ['scrub', '-p', 'bad']), ('dry', ['test-dry'])]
                 ks = [1, max(1, arr.nblocks // 2), max(1, arr.nblocks - 1)]
                 ksel = ks[(seed + cache) % 3]
                 steps.insert(0, ('sync_autosave', ['sync']))
@@ -374,7 +424,7 @@ def trace_runs(chk, tool, model, arrays, caches, seeds, with_sigint):
                         arr.fresh()
                         if rc != 0:
                             chk.violation('rc_%s_n%d_s%d' % (name, cache, seed), 'snapraid %s with --test-io-cache %d exits with %s' % (' '.join(opts + cmd), cache, rc), dict(descr, output=out[-3000:]))
-                    elif rc not in (0,) and not (name in ('sync2', 'scrub_full', 'scrub_part') and rc == 1):
+                    elif rc not in (0,) and not (name in ('sync2', 'scrub_full', 'scrub_part', 'scrub_bad') and rc == 1):
                         chk.violation('rc_%s_n%d_s%d' % (name, cache, seed),
                                       'snapraid %s with --test-io-cache %d exits with %s under schedule seed %d: %s' % (' '.join(cmd), cache, rc, seed, out.strip().split('\n')[-1][:200]),
                                       dict(descr, output=out[-3000:]))
@@ -538,49 +588,66 @@ def diff_rehash(chk, tool, shim, base, rng, caches=(1, 3, 8, 128)):
     if rc != 0 or rc2 != 0:
         chk.notes.append('rehash scenario could not be prepared (sync rc %s, rehash rc %s: %s)' % (rc, rc2, out2.strip().split('\n')[-1][:200]))
         return stats
-    r2 = random.Random(arr.seed + 5)
-    mine = [n for n, sz in arr.files if n.startswith('d1/') and sz >= 1024]
-    for name in mine[:3]:
-        sz = dict(arr.files)[name]
-        _rewrite(os.path.join(arr.work, name), bytes(r2.getrandbits(8) for _ in range(sz)), 1500003000)
-    _rewrite(os.path.join(arr.work, 'd2', 'new'), bytes(r2.getrandbits(8) for _ in range(9000)), 1500003000)
-    for k in range(arr.nd):
-        os.utime(os.path.join(arr.work, 'd%d' % k), (1500000000, 1500000000))
-    save = os.path.join(arr.base, 'save_rehash')
-    shutil.copytree(pdir, save, copy_function=shutil.copy2)
     modes = [('plain', {})] + [('yield%d' % y, {'SNAPRAID_VERIF_YIELD': str(y)}) for y in (1, 2, 3)] + \
             [('slow_d%d' % k, {'C13_SLOW_DIR': '/work/d%d/' % k, 'C13_SLOW_US': '400'}) for k in range(arr.nd)]
-    ref = None
-    for cache in caches:
-        for mname, menv in modes:
-            if cache == 1 and mname != 'plain':
-                continue
-            shutil.rmtree(pdir)
-            shutil.copytree(save, pdir, copy_function=shutil.copy2)
-            env = dict(env0)
-            env.update(menv)
-            rc, out, tags = run_tool(tool, arr, cache, ['sync'], env, timeout=30)
-            snap_ = arr.snapshot()
-            crc, cout, ctags = run_tool(tool, arr, 1, ['check'], env0, timeout=30)
-            stats['variants'] += 1
-            stats['check_runs'] += 1
-            descr = dict(descr0, io_cache=cache, mode=mname, env=menv)
-            cerr = [t for t in ctags if t.startswith(('error:', 'parity_error', 'unrecoverable'))]
-            if rc == 'timeout' or crc == 'timeout':
-                chk.violation('hang_diff_rehash_%d_%s' % (cache, mname), 'sync/check with a pending rehash does not terminate (--test-io-cache %d, %s)' % (cache, mname), descr)
-                return stats
-            if rc == 0 and (crc != 0 or cerr):
-                chk.violation('diff_rehash_check_%d_%s' % (cache, mname),
-                              'sync with a pending rehash (--test-io-cache %d, reader order %s) reports success but the following check fails: rc %s, %s'
-                              % (cache, mname, crc, (cerr or [cout.strip().split('\n')[-1]])[:2]), dict(descr, check_tags=ctags[:20], sync_tags=tags[:20]))
-            cur_ = (rc, tags, snap_)
-            if ref is None:
-                ref = (cur_, cache, mname)
-            elif cur_ != ref[0]:
-                what = 'exit status' if rc != ref[0][0] else ('error tags' if tags != ref[0][1] else ', '.join(k for k in snap_ if snap_[k] != ref[0][2][k]))
-                chk.violation('diff_rehash_state_%d_%s' % (cache, mname),
-                              'sync with a pending rehash: %s differ between (--test-io-cache %d, %s) and (--test-io-cache %d, %s): block hashes / rehash flags depend on the reader arrival order'
-                              % (what, ref[1], ref[2], cache, mname), dict(descr, a=ref[0], b=cur_))
+
+    def loop(cmd, save, label, check=True):
+        ref = None
+        for cache in caches:
+            for mname, menv in modes:
+                if cache == 1 and mname != 'plain':
+                    continue
+                shutil.rmtree(pdir)
+                shutil.copytree(save, pdir, copy_function=shutil.copy2)
+                env = dict(env0)
+                env.update(menv)
+                rc, out, tags = run_tool(tool, arr, cache, cmd, env, timeout=30)
+                snap_ = arr.snapshot()
+                crc, cout, ctags = run_tool(tool, arr, 1, ['check'], env0, timeout=30)
+                stats['variants'] += 1
+                stats['check_runs'] += 1
+                descr = dict(descr0, io_cache=cache, mode=mname, env=menv)
+                cerr = [t for t in ctags if t.startswith(('error:', 'parity_error', 'unrecoverable'))]
+                if rc == 'timeout' or crc == 'timeout':
+                    chk.violation('hang_diff_rehash_%d_%s' % (cache, mname), label + '/check with a pending rehash does not terminate (--test-io-cache %d, %s)' % (cache, mname), descr)
+                    raise Hang()
+                if check and rc == 0 and (crc != 0 or cerr):
+                    chk.violation('diff_rehash_check_%d_%s' % (cache, mname),
+                                  label + ' with a pending rehash (--test-io-cache %d, reader order %s) reports success but the following check fails: rc %s, %s'
+                                  % (cache, mname, crc, (cerr or [cout.strip().split('\n')[-1]])[:2]), dict(descr, check_tags=ctags[:20], sync_tags=tags[:20]))
+                cur_ = (rc, tags, snap_)
+                if ref is None:
+                    ref = (cur_, cache, mname)
+                elif cur_ != ref[0]:
+                    what = 'exit status' if rc != ref[0][0] else ('error tags' if tags != ref[0][1] else ', '.join(k for k in snap_ if snap_[k] != ref[0][2][k]))
+                    chk.violation('diff_rehash_state_%d_%s' % (cache, mname),
+                                  label + ' with a pending rehash: %s differ between (--test-io-cache %d, %s) and (--test-io-cache %d, %s): block hashes / rehash flags depend on the reader arrival order'
+                                  % (what, ref[1], ref[2], cache, mname), dict(descr, a=ref[0], b=cur_))
+
+    try:
+        save0 = os.path.join(arr.base, 'save_rehash0')
+        shutil.copytree(pdir, save0, copy_function=shutil.copy2)
+        loop(['scrub', '-p', 'full'], save0, 'scrub')
+        shutil.rmtree(pdir)
+        shutil.copytree(save0, pdir, copy_function=shutil.copy2)
+        r2 = random.Random(arr.seed + 5)
+        mine = [n for n, sz in arr.files if n.startswith('d1/') and sz >= 1024]
+        for name in mine[:3]:
+            sz = dict(arr.files)[name]
+            _rewrite(os.path.join(arr.work, name), bytes(r2.getrandbits(8) for _ in range(sz)), 1500003000)
+        _rewrite(os.path.join(arr.work, 'd2', 'new'), bytes(r2.getrandbits(8) for _ in range(9000)), 1500003000)
+        for k in range(arr.nd):
+            os.utime(os.path.join(arr.work, 'd%d' % k), (1500000000, 1500000000))
+        save = os.path.join(arr.base, 'save_rehash')
+        shutil.copytree(pdir, save, copy_function=shutil.copy2)
+        loop(['sync'], save, 'sync')
+        loop(['sync', '-h'], save, 'sync -h')
+        # silent errors of unchanged d0 files recovered by the sync while the rehash is pending (no clean check expected)
+        for name in [n for n, sz in arr.files if n.startswith('d0/') and sz >= 1024][:6]:
+            _flip(os.path.join(arr.work, name), 100)
+        loop(['sync'], save, 'sync over silent errors', check=False)
+    except Hang:
+        stats['hang'] = True
     return stats
 
 
@@ -684,8 +751,21 @@ def diff_scrub_cross(chk, tool, shim, base, rng, caches=(1, 3, 8, 128)):
             _flip(os.path.join(arr.work, 'd%d' % cor, 'f%02d' % stripe))
         for k in range(arr.nd):
             os.utime(os.path.join(arr.work, 'd%d' % k), (1500000000, 1500000000))
-        exp_bad = sorted(st_ for st_, _, _ in plan)
+        # silent corruption of the PARITY: stripe 11 (nobody touched: silent error, bad mark) and stripe 6 (d0/f06
+        # touched: the stripe is unsynced by time-stamp, a parity mismatch is an expected error, no bad mark)
+        os.utime(os.path.join(arr.work, 'd0', 'f06'), (1500009006, 1500009006))
+        with open(os.path.join(pdir, 'par0'), 'r+b') as f:
+            for st_ in (6, 11):
+                f.seek(st_ * 1024 + 33)
+                b = f.read(1)
+                f.seek(st_ * 1024 + 33)
+                f.write(bytes([b[0] ^ 0x21]))
+        for k in range(arr.nd):
+            os.utime(os.path.join(arr.work, 'd%d' % k), (1500000000, 1500000000))
+        exp_bad = sorted([st_ for st_, _, _ in plan] + [11])
         exp_err = sorted('%d:d%d:f%02d' % (st_, cor, st_) for st_, _, cor in plan)
+        exp_perr = ['11:parity', '6:parity']
+        n_silent, n_file = len(plan) + 1, 1
         save = os.path.join(arr.base, 'save_cross')
         shutil.copytree(pdir, save, copy_function=shutil.copy2)
         descr0 = {'array': {'nd': 3, 'np': np_, 'seed': arr.seed, 'one_block_files_per_disk': nfiles},
@@ -710,11 +790,12 @@ def diff_scrub_cross(chk, tool, shim, base, rng, caches=(1, 3, 8, 128)):
                 bad = bad_marks(tool, arr, env0)
                 summ = dict(t.split(':')[1:3] for t in tags if t.startswith('summary:error_'))
                 errs = sorted(':'.join(t.split(':')[1:4]) for t in tags if t.startswith('error:'))
-                if summ.get('error_data') != str(len(plan)) or summ.get('error_file') != '0' or bad != exp_bad or errs != exp_err or rc != 1:
+                perrs = sorted(':'.join(t.split(':')[1:3]) for t in tags if t.startswith('parity_error:'))
+                if summ.get('error_data') != str(n_silent) or summ.get('error_file') != str(n_file) or bad != exp_bad or errs != exp_err or perrs != exp_perr or rc != 1:
                     chk.violation('diff_cross_expected_%d_%s_np%d' % (cache, mname, np_),
                                   'scrub --test-io-cache %d (reader order %s): silent errors of synced blocks sharing a stripe with a touched file of ANOTHER disk must be '
-                                  'error_data=%d error_file=0 with bad marks %s; got error_data=%s error_file=%s bad marks %s exit %s: the classification of a block depends on the other disks of its stripe / their arrival order'
-                                  % (cache, mname, len(plan), exp_bad, summ.get('error_data'), summ.get('error_file'), bad, rc),
+                                  'error_data=%d error_file=%d (incl. the parity mismatches of stripes 11 and 6) with bad marks %s; got error_data=%s error_file=%s bad marks %s exit %s: the classification of a block depends on the other disks of its stripe / their arrival order'
+                                  % (cache, mname, n_silent, n_file, exp_bad, summ.get('error_data'), summ.get('error_file'), bad, rc),
                                   dict(descr, tags=tags[:40], bad=bad, expected_bad=exp_bad))
                 cur_ = (rc, tags, bad, arr.snapshot())
                 if ref is None:
@@ -762,6 +843,123 @@ def diff_autosave(chk, tool, shim, arr, caches=(1, 3, 8, 128)):
                     chk.violation('diff_autosave_state_%d_%d_%s' % (k, cache, mname),
                                   'sync --test-force-autosave-at %d: %s differ between (--test-io-cache %d, %s) and (--test-io-cache %d, %s)' % (k, what, ref[1], ref[2], cache, mname),
                                   dict(descr, a=ref[0], b=cur_))
+    return stats
+
+
+def diff_families(chk, tool, shim, base, rng, tier):
+    """scenario families aimed at the regions of io.c / sync.c / scrub.c that the plain scenarios never reach (coverage
+    round): injected open/read/write faults with continuation, scrub plans, pre-hash, sync over bad marks, the
+    reader-only ring of test-dry, default cache depth, io statistics.  Every family: identical saved state, one run
+    per cache depth, everything observable compared with the depth-1 run."""
+    stats = {}
+    if not shim:
+        chk.notes.append('fault families skipped: no shim')
+        return stats
+    env0 = {'LD_PRELOAD': shim}
+    d = os.path.join(base, 'arr_fam')
+    os.makedirs(d)
+    arr = Array(d, 3, 2, rng.randrange(1, 10 ** 6))
+    arr.fresh()
+    pdir = os.path.join(arr.work, 'p')
+    caches = [1, 3, 8, 128, None]
+    big = {k: [n for n, sz in arr.files if n.startswith('d%d/' % k) and sz >= 2048] for k in range(arr.nd)}
+    mid = max(1, arr.nblocks // 2)
+
+    def save_as(name):
+        t = os.path.join(arr.base, 'fam_' + name)
+        shutil.rmtree(t, ignore_errors=True)
+        shutil.copytree(pdir, t, copy_function=shutil.copy2)
+        return t
+
+    def reset(saved):
+        shutil.rmtree(pdir)
+        if saved:
+            shutil.copytree(saved, pdir, copy_function=shutil.copy2)
+        else:
+            os.makedirs(pdir)
+
+    def family(name, cmd, saved, fault=None, opts=(), content=True, expect_errors=False, caches_=None):
+        ref = None
+        for cache in (caches_ or caches):
+            reset(saved)
+            env = dict(env0)
+            env.update(fault or {})
+            rc, out, tags = run_tool(tool, arr, cache, cmd, env, timeout=30, opts=opts)
+            descr = {'array': {'nd': arr.nd, 'np': arr.np, 'seed': arr.seed}, 'family': name, 'cmd': list(opts) + cmd, 'fault_env': fault, 'io_cache': cache}
+            if rc == 'timeout':
+                chk.violation('hang_diff_fam_%s' % name, 'snapraid %s does not terminate (--test-io-cache %s, %s)' % (' '.join(cmd), cache, fault), descr)
+                raise Hang()
+            bad = bad_marks(tool, arr, env0) if os.path.exists(os.path.join(pdir, 'content')) else None
+            snap_ = arr.snapshot()
+            if not content:
+                snap_.pop('content', None)
+            cur_ = (rc, tags, bad, snap_)
+            if ref is None:
+                ref = (cur_, cache)
+                nerr = sum(1 for t in tags if t.startswith(('error:', 'parity_error')))
+                stats[name] = {'rc': rc, 'error_tags': nerr, 'bad_marks': len(bad or [])}
+                if expect_errors and nerr == 0:
+                    chk.notes.append('family %s: the injected fault / corruption produced no error tag (scenario vacuous)' % name)
+            elif cur_ != ref[0]:
+                what = 'exit status' if rc != ref[0][0] else ('error/summary tags' if tags != ref[0][1] else ('bad marks' if bad != ref[0][2] else ', '.join(x for x in snap_ if snap_[x] != ref[0][3].get(x))))
+                only_a = [t for t in ref[0][1] if t not in tags][:3]
+                only_b = [t for t in tags if t not in ref[0][1]][:3]
+                chk.violation('diff_fam_%s_%s' % (name, cache),
+                              '%s (%s%s): %s differ between --test-io-cache %s and %s%s' % (name, ' '.join(list(opts) + cmd), ', fault %s' % fault if fault else '', what, ref[1], cache if cache is not None else 'default',
+                                                                                     ': only in first %s, only in second %s' % (only_a, only_b) if what.startswith('error') else ''),
+                              dict(descr, a=ref[0], b=cur_))
+        return ref[0] if ref else None
+
+    try:
+        # ---- sync with faults (from an empty parity/content directory)
+        if big[0]:
+            family('sync_missing_file', ['sync'], None, {'C13_ENOENT_PATH': '/work/' + big[0][0]}, expect_errors=True)
+        if big[1]:
+            family('sync_read_eio', ['sync'], None, {'C13_EIO_PATH': '/work/' + big[1][0]}, expect_errors=True)
+        family('sync_parity_write_eio', ['sync'], None, {'C13_WEIO_PATH': '/p/par0', 'C13_WEIO_OFF': str(mid * 1024)}, expect_errors=True)
+        family('sync_parity_write_eio_autosave', ['sync'], None, {'C13_WEIO_PATH': '/p/par1', 'C13_WEIO_OFF': str(max(0, mid - 1) * 1024)},
+               opts=['--test-force-autosave-at', str(mid)], expect_errors=True)
+        family('sync_parity_write_eio_last', ['sync'], None, {'C13_WEIO_PATH': '/p/par0', 'C13_WEIO_OFF': str((arr.nblocks - 1) * 1024)}, expect_errors=True)
+        family('sync_io_stats_ticking_clock', ['sync'], None, {'C13_TICK': '1'}, opts=['--test-io-stats'], content=False)
+        # ---- a clean synced state
+        reset(None)
+        rc, out, tags = run_tool(tool, arr, 1, ['sync'], env0)
+        s0 = save_as('s0')
+        family('dry', ['test-dry'], s0)
+        family('scrub_new', ['scrub', '-p', 'new'], s0)
+        family('scrub_auto', ['scrub'], s0)
+        family('scrub_even', ['scrub'], s0, opts=['--test-force-scrub-even'])
+        family('scrub_force_at', ['scrub'], s0, opts=['--test-force-scrub-at', '7'])
+        family('scrub_io_stats_ticking_clock', ['scrub', '-p', 'full'], s0, {'C13_TICK': '1'}, opts=['--test-io-stats'], content=False)
+        family('scrub_autosave', ['scrub', '-p', 'full'], s0, opts=['--test-force-autosave-at', str(mid)])
+        if big[0]:
+            family('scrub_missing_file', ['scrub', '-p', 'full'], s0, {'C13_ENOENT_PATH': '/work/' + big[0][0]}, expect_errors=True)
+        if big[2]:
+            family('scrub_read_eio', ['scrub', '-p', 'full'], s0, {'C13_EIO_PATH': '/work/' + big[2][0], 'C13_EIO_OFF': '1024'}, expect_errors=True)
+        family('scrub_parity_read_eio', ['scrub', '-p', 'full'], s0, {'C13_EIO_PATH': '/p/par1', 'C13_EIO_OFF': str(mid * 1024)}, expect_errors=True)
+        family('dry_read_eio', ['test-dry'], s0, {'C13_EIO_PATH': '/p/par0', 'C13_EIO_OFF': str(mid * 1024)}, expect_errors=True)
+        # ---- silent corruption of data and of parity, bad marks, plans over bad marks, sync over bad marks
+        if big[0]:
+            _flip(os.path.join(arr.work, big[0][-1]), 1100)
+        with open(os.path.join(s0, 'par0'), 'r+b') as f:
+            f.seek(1024 + 17)
+            b = f.read(1)
+            f.seek(1024 + 17)
+            f.write(bytes([b[0] ^ 0x11]))
+        r1 = family('scrub_full_data_and_parity_corruption', ['scrub', '-p', 'full'], s0, expect_errors=True)
+        reset(s0)
+        run_tool(tool, arr, 1, ['scrub', '-p', 'full'], env0)
+        s1 = save_as('s1')
+        family('scrub_bad', ['scrub', '-p', 'bad'], s1, expect_errors=True)
+        family('scrub_percent_old', ['scrub', '-p', '50', '-o', '0'], s1)
+        # second generation of files on top of the bad marks: pre-hash, forced full sync
+        reset(s1)
+        arr.mutate()
+        family('sync_over_bad_marks', ['sync'], s1)
+        family('sync_prehash', ['sync', '-h'], s1)
+        family('sync_force_full', ['sync', '-F'], s1)
+    except Hang:
+        stats['hang'] = True
     return stats
 
 
@@ -865,7 +1063,7 @@ def main(tier, replay=None):
     broken = bool(ob['failed'])
     if tier == 'quick':
         shapes = [(2, 1), (3, 2), (4, 3)]
-        seeds = list(range(1, 9)) if not broken else list(range(1, 31))
+        seeds = list(range(1, 6)) if not broken else list(range(1, 31))
     else:
         shapes = [(2, 1), (2, 2), (3, 1), (3, 2), (3, 3), (4, 2), (4, 3), (5, 4), (6, 6)]
         seeds = list(range(1, 9))
@@ -918,6 +1116,7 @@ def main(tier, replay=None):
         dstats['scrub_touch'] = diff_scrub_touch(chk, tool, shim, base, rng)
         dstats['scrub_cross'] = diff_scrub_cross(chk, tool, shim, base, rng)
         dstats['autosave'] = diff_autosave(chk, tool, shim, arrays[1 if len(arrays) > 1 else 0])
+        dstats['families'] = diff_families(chk, tool, shim, base, rng, tier)
         if tier == 'thorough':
             for _ in range(4):
                 sub = os.path.join(base, 'more%d' % _)
@@ -961,6 +1160,7 @@ def main(tier, replay=None):
         'ASSUMED by the ring theorems, only tested: the result a worker leaves in a task (state, read_size, is_timestamp_different, block, file, buffer content) depends only on (disk, position) and the files, not on what the ring slot held before (io_reader_sched / io_writer_sched reset every field per scheduling) -- tested by the scrub scenario with touched/modified files and silent errors at distances 1..10 on the same disk, across depths 1,3,4,5,8,128',
         'ASSUMED, only tested: the per-stripe computation of sync.c/scrub.c is independent of the order in which io_data_read returns the disks (rehandle[], failed[] are indexed by disk, the failed list is sorted) -- tested by the pending-rehash scenario under yield seeds and a slowed disk (LD_PRELOAD pread delay), content files compared and a following check required clean',
         'ASSUMED, only tested (no Coq model of scrub.c state_scrub_process here; the ring model stops at handing tasks to the caller): the classification of the block of disk j in a stripe (file error vs silent data error, bad mark) depends only on disk j own file/block state, not on the other disks of the stripe nor on their arrival order -- tested by the cross-disk scrub scenario (touched file and silent error on different disks of one stripe, both disk orders), compared across depths 1/3/8/128, yield seeds, one slowed disk at a time, and against the expected classification and bad marks',
-        'write faults: which iteration sees a writer error depends on the schedule (DESIGN C08/C13), not exercised here',
+        'exercised by oracle only (cache-depth differential incl. default depth, no Coq model): continuation after open/read faults of a data disk (ENOENT, EIO) in sync, scrub and test-dry, parity read EIO in scrub/test-dry, parity WRITE EIO in sync at a middle stripe, before an autosave and at the last stripe (io_writer_bad / io_write_bad bad marks), scrub plans new/auto/even/force-at/bad/percent, scrub and sync and sync -h with a pending rehash, silent errors recovered by sync under a pending rehash, silent parity corruption in synced and in time-stamp-unsynced stripes, sync over bad marks, sync -h (pre-hash), sync -F, deallocation of deleted blocks, io statistics (io_refresh) under a ticking clock',
+        'not reached on purpose: fatal / LCOV_EXCL branches (TASK_STATE_IOERROR/ERROR bail-outs, io error limit, close errors), O_DIRECT buffers (io.c:1159), the IO_MIN clamp of the default depth (io.c:1138, needs blocks above 5 MiB), the conf-file autosave of scrub (granularity is GB), EACCES, attribute/data change racing with the command',
         'io_refresh_thread (progress display only) and the mono-thread variants (io_max = 1, trivially sequential) are not in the model; io_max = 1 is covered by the differential runs']
     return chk.finish()
